@@ -10,7 +10,7 @@ import (
 
 // C16: SqrtRatio follows the SQRT_RATIO_M1 contract.
 func C16(c *Ctx) {
-	n := c.N(240000, 6000000)
+	n := c.N(240000, 24000000)
 	one := big.NewInt(1)
 	for i := int64(0); i < n; i++ {
 		if !c.Mine(i) {
